@@ -76,6 +76,19 @@ impl RngCore for ConstRng {
     }
 }
 
+/// the 64 hex digits a formatted element shows (the first maximal run of hex digits of length 64)
+fn hex64(s: &str) -> String {
+    let b = s.as_bytes();
+    let mut i = 0;
+    while i < b.len() {
+        let mut j = i;
+        while j < b.len() && b[j].is_ascii_hexdigit() { j += 1; }
+        if j - i == 64 { return s[i..j].to_ascii_lowercase(); }
+        i = if j > i { j } else { i + 1 };
+    }
+    format!("nohex:{}", s.replace(' ', "_"))
+}
+
 fn dec(form: &str, bytes: &[u8]) -> Result<Element, String> {
     fn arr(bytes: &[u8]) -> Result<[u8; 32], String> {
         bytes.try_into().map_err(|_| "err-len".to_string())
@@ -229,11 +242,12 @@ fn enc(form: &str, x: &Element) -> String {
         "ser" => { let mut v = Vec::new(); x.serialize_compressed(&mut v).unwrap(); tohex(&v) }
         "ser_aff" => { let mut v = Vec::new(); xa.serialize_compressed(&mut v).unwrap(); tohex(&v) }
         "ser_enc" => { let mut v = Vec::new(); x.vartime_compress().serialize_compressed(&mut v).unwrap(); tohex(&v) }
-        "debug" => { let s = format!("{:?}", x); s.trim_start_matches("decaf377::Element(").trim_end_matches(')').to_string() }
-        "display" => { let s = format!("{}", x); s.trim_start_matches("decaf377::Element(").trim_end_matches(')').to_string() }
-        "debug_aff" => { let s = format!("{:?}", xa); s.trim_start_matches("decaf377::AffinePoint(").trim_end_matches(')').to_string() }
-        "display_aff" => { let s = format!("{}", xa); s.trim_start_matches("decaf377::AffinePoint(").trim_end_matches(')').to_string() }
-        "debug_enc" => { let s = format!("{:?}", x.vartime_compress()); s.trim_start_matches("decaf377::Encoding(").trim_end_matches(')').to_string() }
+        // Debug / Display show the hex of the encoding: the observable is that hex string, whatever surrounds it
+        "debug" => hex64(&format!("{:?}", x)),
+        "display" => hex64(&format!("{}", x)),
+        "debug_aff" => hex64(&format!("{:?}", xa)),
+        "display_aff" => hex64(&format!("{}", xa)),
+        "debug_enc" => hex64(&format!("{:?}", x.vartime_compress())),
         #[cfg(feature = "r1cs")]
         "to_field_elements" => {
             use ark_ff::ToConstraintField;
